@@ -56,6 +56,7 @@ type c13Case struct {
 	Pattern []string `json:"pattern"`
 	T       int      `json:"T"`
 	End     string   `json:"end"`
+	Drain   int      `json:"drain"`
 	Levels  []string `json:"levels"`
 	c13Exp
 }
@@ -75,9 +76,11 @@ type c13Obs struct {
 	Pattern   []string  `json:"pattern"`
 	T         int       `json:"T"`
 	End       string    `json:"end"`
+	Drain     int       `json:"drain"` // end "drain": intervals the owner's Close waits for a running request handler
 	I         int64     `json:"I"`
 	Start     int64     `json:"start"`
 	Pings     []c13Ping `json:"pings"`
+	Attempts  []int64   `json:"attempts"`  // when the session tried to send a ping (sending middleware / Ping double)
 	Closed    int64     `json:"closed"`    // session terminated without its owner closing it (-1: no)
 	UserClose int64     `json:"userClose"` // owner called Close (-1: no)
 	Ended     int64     `json:"ended"`     // session termination observed (Wait returned / loop cancelled), -1 never
@@ -85,6 +88,8 @@ type c13Obs struct {
 	Cancels   int       `json:"cancels"`   // notifications/cancelled seen by the peer
 	Left      int       `json:"left"`      // goroutines left at the end of the scenario
 	LeftAt    string    `json:"leftAt"`    // where they were created
+	KAEarly   int       `json:"kaEarly"`   // keep-alive goroutines alive right after the owner's Close began (settled)
+	Released  int64     `json:"released"`  // end "drain": when the handler was released (-1 otherwise)
 	KAAlive   int       `json:"kaAlive"`   // keep-alive goroutines still alive once the closing / the owner's Close had settled
 	Settle    int64     `json:"settle"`    // when that census was taken
 	Exit      string    `json:"exit"`      // "clean" or what synctest reported at bubble exit
@@ -122,15 +127,8 @@ func (r *c13Rec) awaitEnd() {
 // census records how many keep-alive goroutines exist now (everything has settled).
 func (r *c13Rec) census() {
 	synctest.Wait()
-	ka := 0
-	if d := runtime.NumGoroutine() - r.g0; d != 0 {
-		// something is still there: look at the goroutine dump (only goroutines of this bubble count)
-		if c13Dumps < c13MaxDumps {
-			_, _, ka = c13Bubble()
-		} else if d > 0 {
-			ka = d // leaks are established by then; stop paying for dumps
-		}
-	}
+	// only when the goroutine count is off is the goroutine dump consulted
+	ka := r.kaCount(r.g0)
 	r.mu.Lock()
 	r.obs.KAAlive, r.obs.Settle = ka, r.us()
 	// A ping beyond the script is ignored by the peer. If it stayed unanswered for a whole
@@ -196,9 +194,42 @@ func (r *c13Rec) next(ctx context.Context) (c13Ping, int) {
 	return p, len(r.obs.Pings) - 1
 }
 
+// attempt records that the session tried to send a ping.
+func (r *c13Rec) attempt() {
+	r.mu.Lock()
+	r.obs.Attempts = append(r.obs.Attempts, r.us())
+	r.mu.Unlock()
+}
+
+// pingWatch is a sending middleware that records every keep-alive ping attempt, including
+// those the connection refuses locally.
+func (r *c13Rec) pingWatch(next MethodHandler) MethodHandler {
+	return func(ctx context.Context, method string, req Request) (Result, error) {
+		if method == "ping" {
+			r.attempt()
+		}
+		return next(ctx, method, req)
+	}
+}
+
+// kaCount counts the keep-alive goroutines of this bubble; hint is the goroutine count at
+// which there can be none (negative: always look).
+func (r *c13Rec) kaCount(hint int) int {
+	if n := runtime.NumGoroutine(); n == hint {
+		return 0
+	} else if c13Dumps >= c13MaxDumps {
+		if hint >= 0 && n > hint {
+			return n - hint
+		}
+		return 0
+	}
+	_, _, ka := c13Bubble()
+	return ka
+}
+
 func (r *c13Rec) userTime() time.Duration {
 	l := time.Duration(len(r.pattern))
-	if r.obs.End == "idle" {
+	if r.obs.End == "idle" || r.obs.End == "drain" {
 		return l*r.ivl + 3*r.ivl/4
 	}
 	return (l+1)*r.ivl + r.ivl/4
@@ -216,6 +247,7 @@ type c13Pinger struct {
 func (s *c13Pinger) Ping(ctx context.Context, _ *PingParams) error {
 	s.calls.Add(1)
 	defer s.calls.Done()
+	s.r.attempt()
 	p, idx := s.r.next(ctx)
 	var err error
 	switch p.O {
@@ -283,6 +315,10 @@ func c13RunFunc(r *c13Rec, thr int) {
 		r.mu.Unlock()
 		// what Close of a real session does: cancel keep-alive, then wait for outstanding calls
 		cancel()
+		if o.End != "inflight" {
+			synctest.Wait()
+			o.KAEarly = r.kaCount(r.g0)
+		}
 		sess.calls.Wait()
 	} else {
 		r.mu.Unlock()
@@ -302,7 +338,7 @@ type c13Conn struct {
 }
 
 func (c *c13Conn) Connect(context.Context) (Connection, error) { return c, nil }
-func (c *c13Conn) SessionID() string                             { return "" }
+func (c *c13Conn) SessionID() string                           { return "" }
 
 func (c *c13Conn) Read(ctx context.Context) (jsonrpc.Message, error) {
 	select {
@@ -414,15 +450,25 @@ func c13RunSession(r *c13Rec, thr int, level string) error {
 	ctx := context.Background()
 	var sess c13Session
 	impl := &Implementation{Name: "verif", Version: "1"}
+	drain := o.End == "drain"
+	started, release := make(chan struct{}), make(chan struct{})
+	slow := `{"jsonrpc":"2.0","id":"slow","method":"tools/call","params":{"name":"slow","arguments":{}}}`
 	if level == "server" {
 		o.Hand = "none"
-		if r.rng.IntN(4) != 0 {
+		if drain || r.rng.IntN(4) != 0 {
 			o.Hand = ver
 			conn.push(`{"jsonrpc":"2.0","id":"init","method":"initialize","params":{"protocolVersion":` + strconv.Quote(ver) +
 				`,"capabilities":{},"clientInfo":{"name":"peer","version":"1"}}}`)
 			conn.push(`{"jsonrpc":"2.0","method":"notifications/initialized","params":{}}`)
 		}
 		s := NewServer(impl, &ServerOptions{KeepAlive: r.ivl, KeepAliveFailureThreshold: thr})
+		s.AddSendingMiddleware(r.pingWatch)
+		// a request handler that takes a while and does not watch its context
+		AddTool(s, &Tool{Name: "slow"}, func(context.Context, *CallToolRequest, struct{}) (*CallToolResult, struct{}, error) {
+			close(started)
+			<-release
+			return &CallToolResult{}, struct{}{}, nil
+		})
 		ss, err := s.Connect(ctx, conn, nil)
 		if err != nil {
 			return err
@@ -430,7 +476,14 @@ func c13RunSession(r *c13Rec, thr int, level string) error {
 		sess = ss
 	} else {
 		o.Hand = ver
-		c := NewClient(impl, &ClientOptions{KeepAlive: r.ivl, KeepAliveFailureThreshold: thr})
+		slow = `{"jsonrpc":"2.0","id":"slow","method":"sampling/createMessage","params":{"messages":[],"maxTokens":8}}`
+		c := NewClient(impl, &ClientOptions{KeepAlive: r.ivl, KeepAliveFailureThreshold: thr,
+			CreateMessageHandler: func(context.Context, *CreateMessageRequest) (*CreateMessageResult, error) {
+				close(started)
+				<-release
+				return &CreateMessageResult{Model: "m", Role: "assistant", Content: &TextContent{Text: "x"}}, nil
+			}})
+		c.AddSendingMiddleware(r.pingWatch)
 		cs, err := c.Connect(ctx, conn, &ClientSessionOptions{ProtocolVersion: ver})
 		if err != nil {
 			return err
@@ -452,6 +505,22 @@ func c13RunSession(r *c13Rec, thr int, level string) error {
 			close(r.endedCh)
 		}
 	}()
+	running := false
+	if drain {
+		// an eighth of an interval before the owner closes, the peer makes a request whose handler blocks
+		select {
+		case <-r.endedCh:
+		case <-time.After(r.userTime() - r.ivl/8 - time.Since(r.t0)):
+			conn.push(slow)
+			synctest.Wait()
+			select {
+			case <-started:
+				running = true
+			default:
+				o.Exit = "harness: the gated request handler did not start"
+			}
+		}
+	}
 	r.awaitEnd()
 	r.mu.Lock()
 	over := r.over
@@ -461,12 +530,44 @@ func c13RunSession(r *c13Rec, thr int, level string) error {
 	}
 	r.mu.Unlock()
 	if !over {
+		n0 := runtime.NumGoroutine()
 		closed := make(chan struct{})
 		go func() { sess.Close(); close(closed) }()
+		if o.End != "inflight" {
+			// Close has begun and everything runnable has run (Close itself may be waiting for the
+			// handler). With keep-alive gone there is one goroutine more (Close) and one less.
+			synctest.Wait()
+			hint := n0
+			r.mu.Lock()
+			for _, p := range o.Pings {
+				if p.O == "m" {
+					hint = n0 + 1 // the loop had already stopped: nothing leaves when Close begins
+				}
+			}
+			r.mu.Unlock()
+			if !running {
+				hint = -1 // Close has already returned; the settle census below decides
+				if o.End == "idle" {
+					hint = r.g0
+				}
+			}
+			o.KAEarly = r.kaCount(hint)
+		}
+		if running {
+			select {
+			case <-closed:
+				o.Exit = "harness: Close returned while the handler was still running"
+			case <-time.After(time.Duration(o.Drain) * r.ivl):
+			}
+			o.Released = r.us()
+			close(release)
+		}
 		select {
 		case <-closed:
 		case <-time.After(20 * r.ivl):
 		}
+	} else if running {
+		close(release)
 	}
 	r.census()
 	return nil
@@ -526,7 +627,8 @@ func c13Bubble() (others int, where string, keepalive int) {
 }
 
 func c13Scenario(t *testing.T, c c13Case, level string, seed uint64) (o *c13Obs) {
-	o = &c13Obs{ID: c.ID, Level: level, Pattern: c.Pattern, T: c.T, End: c.End, Pings: []c13Ping{},
+	o = &c13Obs{ID: c.ID, Level: level, Pattern: c.Pattern, T: c.T, End: c.End, Drain: c.Drain, Pings: []c13Ping{},
+		Attempts: []int64{}, Released: -1,
 		Closed: -1, UserClose: -1, Ended: -1, Exit: "clean", Hand: "", Exp: c.c13Exp}
 	if o.Pattern == nil {
 		o.Pattern = []string{}
